@@ -61,6 +61,7 @@ def summarize(rr, prop: str) -> dict:
                     for c in rr.crashes],
         'preempt_missing': rr.preempt_missing,
         'sweep': rr.scn.get('sweep'),
+        'cls': rr.scn.get('cls'),
     }
 
 
